@@ -14,7 +14,8 @@ RULE = (
     "sources: (a) scoping-heavy templates: functions nested 1..3 deep with (nonlocal ...)/(global ...) declarations of 1..6 names "
     "that resolve to a mix of enclosing-function locals, let bindings and module globals; comprehensions (lfor/gfor/dfor with :do, so "
     "they compile to generator functions) leaking 2..6 setx names at module and function level; let forms with several bindings; "
-    "(b) Engine-A programs at large. Each batch is compiled in fresh interpreter processes under PYTHONHASHSEED in {0,1,2} (quick) / "
+    "(b) Engine-A programs at large; (c) Engine-C scoping programs (vf/scopes.py: nonlocal/global with several names, lets, "
+    "comprehensions with :do, classes) and C08 match forms. Each batch is compiled in fresh interpreter processes under PYTHONHASHSEED in {0,1,2} (quick) / "
     "{0,1,2,3,7,4242} (thorough). Oracle (metamorphic): the sha256 of ast.dump(module, include_attributes=True) and of a canonical "
     "dump of the code objects (bytecode, constants, names, line tables; frozenset constants order-normalised) are identical across "
     "all seeds. Non-trivial = the source has a declaration or a leak list with >= 3 names; distinct by source"
@@ -141,6 +142,21 @@ def shard(ctx):
 
     ctx.hyp(tmpl(), add_t, ctx.per_shard(700, 16000), "templates")
     ctx.hyp(st.tuples(G.program(budget=40, depth=4), st.sampled_from(["module", "function"])), add_p, ctx.per_shard(300, 8000), "engine-a")
+
+    # Engine C scoping programs (several-name declarations, lets, comprehensions, classes) and match forms
+    from vf import scopes as S
+    from vf.props import c08
+
+    def add_s(prog):
+        f = S.features(prog)
+        batch.append((S.render(prog), bool(f & {"nonlocal-several-names", "global-several-names", "nonlocal+global-in-one-function", "comprehension-with-do"}), "engine-c"))
+
+    def add_m(case):
+        batch.append((c08.render(case)[0], False, "match"))
+
+    ctx.hyp(S.program_strategy("decl"), add_s, ctx.per_shard(300, 8000), "engine-c-decl")
+    ctx.hyp(S.program_strategy("let"), add_s, ctx.per_shard(150, 4000), "engine-c-let")
+    ctx.hyp(c08.strategies(), add_m, ctx.per_shard(150, 4000), "match")
     for i in range(0, len(batch), 200):
         if ctx.out_of_time():
             return
